@@ -7,6 +7,12 @@ VERUS = {
     'float_round_halfeven': {'file': 'float_round_halfeven.rs', 'w32': False},
     'float_round_halfaway': {'file': 'float_round_halfaway.rs', 'w32': False},
     'float_round': {'file': 'float_round.rs', 'w32': False},
+    'float_round_add': {'file': 'float_round_add.rs', 'w32': False},
+    'float_round_add_ref': {'file': 'float_round_add_ref.rs', 'w32': False},
+    'float_repr_round': {'file': 'float_repr_round.rs', 'w32': False},
+    'ratio_round': {'file': 'ratio_round.rs', 'w32': False},
+    'ratio_round_rbig': {'file': 'ratio_round_rbig.rs', 'w32': False},
+    'ratio_round_relaxed': {'file': 'ratio_round_relaxed.rs', 'w32': False},
 }
 
 _MODES = ['float_round_zero', 'float_round_away', 'float_round_up', 'float_round_down',
@@ -17,6 +23,7 @@ _UNDECIDED_F32 = ('Round::round_fract: agreement of the two f32 `log2_bounds` sh
                   'needs real-number reasoning about f32 rounding; only the exact branch and the surrounding logic are proved')
 
 PROP_UNITS = {
-    'C10': {'verus': _MODES + ['float_round'], 'undecided': [_UNDECIDED_F32]},
-    'C03': {'verus': _MODES + ['float_round'], 'undecided': [_UNDECIDED_F32]},
+    'C10': {'verus': _MODES + ['float_round', 'float_round_add', 'float_round_add_ref', 'float_repr_round', 'ratio_round', 'ratio_round_rbig', 'ratio_round_relaxed'],
+            'undecided': [_UNDECIDED_F32]},
+    'C03': {'verus': _MODES + ['float_round', 'float_round_add', 'float_round_add_ref', 'float_repr_round'], 'undecided': [_UNDECIDED_F32]},
 }
